@@ -28,7 +28,7 @@ OK_LIKE = ('Result::Ok', 'Option::None', 'ControlFlow::Continue')       # varian
 ERR_LIKE = ('Result::Err', 'Option::Some', 'ControlFlow::Break')        # variant index 1
 
 
-def reach_x(body, starts, stop=(), assume_stmt=None, assume_call=None, init=None, watch=None, seen_vals=None):
+def reach_x(body, starts, stop=(), assume_stmt=None, assume_call=None, init=None, watch=None, seen_vals=None, assume_switch=None):
     """forward reachability that follows only the feasible side of a switch when the switched value is
     known on the path.  Known values: bool constants and their copies / negations; the variant of a
     Result / Option / ControlFlow built on the path (aggregate, `from_residual`, `Try::branch` of a
@@ -55,9 +55,20 @@ def reach_x(body, starts, stop=(), assume_stmt=None, assume_call=None, init=None
                 if not (len(d['p']) >= 1 and d['p'][0] == '*'): e.pop(d['l'], None)     # partial overwrite of a tracked value
                 continue
             o = (rv.get('ops') or [None])[0]
+            kill_components(e, d['l'])
             if id(st) in assume_stmt: e[d['l']] = assume_stmt[id(st)]
             elif rv['k'] == 'use' and _cv(o) in ('true', 'false'): e[d['l']] = (_cv(o) == 'true')
-            elif rv['k'] == 'use' and plain(o) and o['pl']['l'] in e: e[d['l']] = e[o['pl']['l']]
+            elif rv['k'] == 'use' and plain(o) and (o['pl']['l'] in e or any(isinstance(k, tuple) and k[0] == o['pl']['l'] for k in e)):
+                if o['pl']['l'] in e: e[d['l']] = e[o['pl']['l']]
+                else: e.pop(d['l'], None)
+                for k in [k for k in e if isinstance(k, tuple) and k[0] == o['pl']['l']]: e[(d['l'], k[1])] = e[k]       # a tuple moved as a whole
+            elif rv['k'] == 'agg' and rv['adt'] == 'tuple':
+                # (kind, legacy): the components that are known stay known; `match` on the tuple tests them one by one
+                e.pop(d['l'], None)
+                for i, x in enumerate(rv['ops']):
+                    if _cv(x) in ('true', 'false'): e[(d['l'], str(i))] = (_cv(x) == 'true')
+                    elif plain(x) and x['pl']['l'] in e: e[(d['l'], str(i))] = e[x['pl']['l']]
+            elif rv['k'] == 'agg' and not rv['ops'] and unit_variant(body, rv['adt']) is not None: e[d['l']] = ('V', unit_variant(body, rv['adt']))
             elif rv['k'] == 'un' and rv['op'] == 'Not' and plain(o) and isinstance(e.get(o['pl']['l']), bool): e[d['l']] = not e[o['pl']['l']]
             elif rv['k'] == 'agg' and rv['adt'].endswith(OK_LIKE): e[d['l']] = ('V', 0)
             elif rv['k'] == 'agg' and rv['adt'].endswith(ERR_LIKE): e[d['l']] = ('V', 1)
@@ -81,6 +92,7 @@ def reach_x(body, starts, stop=(), assume_stmt=None, assume_call=None, init=None
                 seen_vals.setdefault(bi, set()).add(tuple(val(l) for l in w) if isinstance(w, tuple) else val(w))       # value(s) of local(s) when this call is reached
             if not t['dst']['p']:
                 dl = t['dst']['l']
+                kill_components(e, dl)
                 nm = t['r'] or t['f']; a0 = t['args'][0] if t['args'] else None
                 item = (t.get('ri') or {}).get('item')
                 known = e.get(a0['pl']['l']) if plain(a0) else None
@@ -102,8 +114,12 @@ def reach_x(body, starts, stop=(), assume_stmt=None, assume_call=None, init=None
                     e[dl] = (variant_at(e, {'l': a0['pl']['l'], 'p': ['*']}) == 1) == (item == 'is_some')
                 else: e.pop(dl, None)
             else: e.pop(t['dst']['l'], None)
-        elif t['k'] == 'switch' and t['d']['k'] != 'const' and not t['d']['pl']['p'] and t['d']['pl']['l'] in e:
-            v = e[t['d']['pl']['l']]
+        elif t['k'] == 'switch' and assume_switch and bi in assume_switch:
+            # a bool tested in place (`match *flag { true => .., false => .. }`): no statement carries its value
+            m = {val: tg for val, tg in t['ts']}
+            succs = [m.get(1 if assume_switch[bi] else 0, t['else'])]
+        elif t['k'] == 'switch' and t['d']['k'] != 'const' and component_key(t['d']['pl']) in e:
+            v = e[component_key(t['d']['pl'])]
             v = (1 if v else 0) if isinstance(v, bool) else (v[1] if v[0] == 'D' else None)
             if v is not None:
                 m = {val: tg for val, tg in t['ts']}
@@ -119,8 +135,34 @@ def reach_x(body, starts, stop=(), assume_stmt=None, assume_call=None, init=None
 VARIANT_KEEPING = re.compile(r'::(with_context|context|ok_or|ok_or_else|map_err|map|copied|cloned|as_ref|as_mut|as_deref|inspect|inspect_err)(::<.*>)?$')
 
 
+def component_key(pl):
+    """key of the reach_x environment for a place: the local, or (local, i) for the component `x.i` of a tuple"""
+    if not pl['p']: return pl['l']
+    if len(pl['p']) == 1 and isinstance(pl['p'][0], dict) and pl['p'][0].get('of') == 'tuple' and 'f' in pl['p'][0]: return (pl['l'], pl['p'][0]['f'])
+    return None
+
+
+def kill_components(e, l):
+    for k in [k for k in e if isinstance(k, tuple) and k[0] == l]: del e[k]
+
+
+def unit_variant(body, adt):
+    """discriminant of a field-less variant `path::Enum::Variant` of an enum of the crate (a key of a `match` table), else None"""
+    F = getattr(body, 'facts', None)
+    if F is None or '::' not in adt: return None
+    en, var = adt.rsplit('::', 1)
+    a = F.adts.get(en) if hasattr(F, 'adts') else None
+    if a is None: return None
+    for v in a.get('variants', []):
+        if v.get('name') == var and not v.get('fields'): return v.get('discr')
+    return None
+
+
 def variant_at(e, pl):
-    """known variant index of the enum at place `x` or `*p` (p a shared reference to a local of known variant)"""
+    """known variant index of the enum at place `x`, `x.i` (tuple component) or `*p` (p a shared reference to a local of known variant)"""
+    if pl['p'] and component_key(pl) is not None:
+        v = e.get(component_key(pl))
+        return v[1] if isinstance(v, tuple) and len(v) == 2 and v[0] == 'V' else None
     v = e.get(pl['l'])
     if not isinstance(v, tuple): return None
     if not pl['p'] and v[0] == 'V': return v[1]
@@ -212,6 +254,19 @@ def item_fields(body, lo, op, depth=14):
     if e[0] == 'call' and len(e) > 4 and e[4] == lo[0].bb: return []
     if e[0] == 'proj' and e[1][0] == 'call' and len(e[1]) > 4 and e[1][4] == lo[0].bb:
         return [f for a, f in e[2] if a == 'tuple']
+    if e[0] == 'place' and e[1] > body.argc and e[2] and T.WRAPPER_OWNER.search(e[2][0][0]) and depth > 4:
+        # `if flag { Some(id) } else { None }` unwrapped: the payload of an Option assigned in several branches is what the Some branches put in
+        alts = []
+        for k, bi, d in body.defs_of(e[1]):
+            if k != 'stmt' or d['dst']['p']: return None
+            rv = d['rv']
+            if rv['k'] == 'agg' and rv['adt'].endswith('Option::None'): continue
+            if rv['k'] == 'agg' and rv['adt'].endswith('Option::Some') and len(rv['ops']) == 1:
+                f = item_fields(body, lo, rv['ops'][0], depth - 4)
+                if f is None: return None
+                alts.append(f + [x for a, x in e[2][1:] if a == 'tuple'])
+            else: return None
+        if alts and all(a == alts[0] for a in alts): return alts[0]
     return None
 
 
@@ -905,10 +960,13 @@ def keeps_true_flags(ctx, rule, b):
         if not ins: continue
         flags = [st for bi, st in b.stmts() if bi in blocks and not st['dst']['p'] and st['rv']['k'] == 'use' and b.locals[st['dst']['l']].strip() == 'bool'
                  and st['rv']['ops'][0]['k'] in ('copy', 'move') and item_fields(b, lo, st['rv']['ops'][0]) == ['1']]
-        if not flags: why = 'the flag of the pair is never read'; continue
+        # ... or tested in place: a switch directly on `*item.1`
+        flag_switches = [bi for bi in sorted(blocks) if b.blocks[bi]['term']['k'] == 'switch' and b.blocks[bi]['term']['d']['k'] in ('copy', 'move')
+                         and b.blocks[bi]['term']['d']['pl']['p'] and item_fields(b, lo, b.blocks[bi]['term']['d']) == ['1']]
+        if not flags and not flag_switches: why = 'the flag of the pair is never read'; continue
         U = {c.bb for c in ins}
-        no = reach_x(b, [some_bb], stop={header}, assume_stmt={id(st): False for st in flags})
-        yes = reach_x(b, [some_bb], stop=U, assume_stmt={id(st): True for st in flags})
+        no = reach_x(b, [some_bb], stop={header}, assume_stmt={id(st): False for st in flags}, assume_switch={bi: False for bi in flag_switches})
+        yes = reach_x(b, [some_bb], stop=U, assume_stmt={id(st): True for st in flags}, assume_switch={bi: True for bi in flag_switches})
         probs = []
         if no & U: probs.append('an id whose flag is false can be inserted')
         if header in yes: probs.append('an id whose flag is true can be skipped')
